@@ -113,7 +113,7 @@ impl PartialEq for ExecOut {
     }
 }
 
-fn run_one(p: &ParCase, engine: Engine) -> ExecOut {
+fn run_one(p: &ParCase, engine: Engine, recompiles: usize) -> ExecOut {
     let c = p.case;
     let bufs = Bufs::new(c);
     let r = sys::catch(|| -> Result<Result<u64, String>, String> {
@@ -127,6 +127,15 @@ fn run_one(p: &ParCase, engine: Engine) -> ExecOut {
                     let _ = vm.set_jit_exec_memory(crate::exec::exec_memory(need));
                 }
                 vm.jit_compile()?;
+                // tight re-compilation: the threads spend their time acquiring and releasing code regions
+                for _ in 0..recompiles {
+                    #[cfg(not(any(feature = "std", feature = "stdlite")))]
+                    {
+                        let need = (c.prog.len() / 8 * 64 + 8192 + 4095) & !4095;
+                        let _ = vm.set_jit_exec_memory(crate::exec::exec_memory(need));
+                    }
+                    vm.jit_compile()?;
+                }
                 Ok(unsafe { vm.exec_jit(bufs.pkt_raw(), bufs.mbuff_raw()) })
             }
             #[cfg(feature = "std")]
@@ -152,10 +161,15 @@ fn run_one(p: &ParCase, engine: Engine) -> ExecOut {
 /// Concurrent executions (and, for the compilers, concurrent compilations) of address-independent
 /// cases on per-thread VMs, inside one forked child. `batch` comes from `pre_run`.
 pub fn exec_par(rep: &mut Report, prop: &str, batch: &[Pre], engine: Engine) {
-    exec_par_rounds(rep, prop, batch, engine, 2)
+    exec_par_full(rep, prop, batch, engine, 2, 0)
 }
 
 pub fn exec_par_rounds(rep: &mut Report, prop: &str, batch: &[Pre], engine: Engine, rounds: usize) {
+    exec_par_full(rep, prop, batch, engine, rounds, 0)
+}
+
+/// `recompiles`: extra JIT compilations of the same VM before it is executed
+pub fn exec_par_full(rep: &mut Report, prop: &str, batch: &[Pre], engine: Engine, rounds: usize, recompiles: usize) {
     let elig: Vec<ParCase> = batch
         .iter()
         .filter(|p| {
@@ -175,7 +189,7 @@ pub fn exec_par_rounds(rep: &mut Report, prop: &str, batch: &[Pre], engine: Engi
     }
     let ends = sys::run_batch(1, 300, 300, |_i, out| {
         hooks::unlimited();
-        let (execs, bad) = par_same(&elig, |p| run_one(p, engine), rounds);
+        let (execs, bad) = par_same(&elig, |p| run_one(p, engine, recompiles), rounds);
         out.extend_from_slice(&execs.to_le_bytes());
         out.extend_from_slice(&(bad.len() as u32).to_le_bytes());
         for (i, d) in bad {
